@@ -116,7 +116,8 @@ add("C18.caps","VH_c18_caps",API,["apiutil/c18.go"],expect_reach=["end"],bounds=
 C18S="table.NewAPIPolicyFromTableStruct -> newStatementFromApiStruct for a statement: "
 add("C18.statement_actions","VH_c18_statement_roundtrip",SRV,sc+["server/c18.go"],expect_reach=["end"],pins={"aspath_len_op":1,"community_count_op":0,"origin_eq":0,"set_origin":0},bounds=C18S+"3 dispositions x MED action from a listed set of 8 texts x AS prepend (none / 3 texts x symbolic repeat) x symbolic LOCAL_PREF action and numeric conditions; origin fields and comparison operators fixed")
 add("C18.statement_conditions","VH_c18_statement_roundtrip",SRV,sc+["server/c18.go"],expect_reach=["end"],pins={"disposition":1,"med":0,"prepend_as":0},bounds=C18S+"AS_PATH length and community count conditions (4 operators each x symbolic value) x ORIGIN condition (4) x ORIGIN action (4) x symbolic LOCAL_PREF / MED conditions; other actions fixed")
-add("C17.server_rtc","VH_c17_server_rtc",SRV,sc+["server/c17.go"],{"params":{"steps":3},"unwind":2200},{"params":{"steps":4},"unwind":2200},expect_reach=["advertised","withheld"],fixed_clock=True,bounds="real BgpServer.handleFSMMessage/processRTCMembership: one VPN route with one target learned before or after a history of 3 (quick) / 4 membership announcements/withdrawals from an RTC peer (target of the route or an unrelated one, 2 origin AS values)")
+add("C17.server_rtc","VH_c17_server_rtc",SRV,sc+["server/c17.go"],{"params":{"steps":2,"targets":1,"import_policy":0},"unwind":2200},{"params":{"steps":3,"targets":1,"import_policy":0},"unwind":2200,"harness_s":3000},expect_reach=["advertised","withheld"],fixed_clock=True,bounds="real BgpServer.handleFSMMessage/processRTCMembership: one VPN route with one target learned before or after a history of 2 (quick) / 3 membership announcements/withdrawals from an RTC peer (target of the route, an unrelated one or the default membership; 2 origin AS values)")
+add("C17.server_rtc_full","VH_c17_server_rtc",SRV,sc+["server/c17.go"],{"params":{"steps":2,"targets":2,"import_policy":1},"unwind":2200,"harness_s":600},{"params":{"steps":3,"targets":2,"import_policy":1},"unwind":2200,"harness_s":3000},expect_reach=["advertised","withheld"],fixed_clock=True,bounds="as C17.server_rtc with the route carrying no, one or two targets, memberships for either target, an unrelated one or the default, an import policy with a modifying action and an optional soft reset in before the memberships; histories of 2 (quick) / 3 membership events")
 C15B="metamorphic: old policy + 2 routes (AS_PATH length 1..3 each) + policy replaced + soft reset %s versus a fresh real BgpServer under the new policy; policies = one statement 'AS_PATH length eq/ge/le symbolic threshold -> reject | accept and set attribute' or none, default accept; Loc-RIB and the target's view compared, reset repeated"
 for d,exp in (("in",0),("out",1),("refresh",2)):
     for o in range(4):
@@ -154,6 +155,7 @@ split_thorough("C01.server_flaps","event#0",6)
 split_thorough("C01.server_addpath","source#0",3)
 split_thorough("C02.server_sources","event#0",4)
 split_thorough("C17.server_rtc","origin_as#0",2)
+split_thorough("C17.server_rtc_full","membership_target#0",4)
 add("C02.best_stream","VH_c02_best_stream",SRV,sc+["server/c02.go"],{"params":{"steps":2},"unwind":4200,"harness_s":600},{"params":{"steps":3},"unwind":4200,"harness_s":2400},expect_reach=["matches","empty"],fixed_clock=True,bounds="real BgpServer.watch(WatchBestPath) with the management loop and the watcher's pump goroutine (cooperative schedule): 2 eBGP sources x 2 prefixes, every history of 2 (quick) / 3 events over {announce (AS_PATH length 1..2), withdraw, session lost}; notifications applied in order versus GetBestPathList")
 split_thorough("C02.best_stream","source#0",2)
 add("C12.deferral","VH_c12_deferral",SRV,sc+["server/c12.go","server/c07.go"],{"params":{},"unwind":4200,"harness_s":600},{"params":{},"unwind":4200,"harness_s":1200},expect_reach=["all_eor","deferral_expired"],fixed_clock=True,bounds="real handleFSMMessage restarting-speaker branches, the deferral time.AfterFunc (virtual clock) and softResetOut(deferral) through the real management loop: 2 graceful-restart peers, one route from the first, the second sends End-of-RIB or stays silent until the deferral timer (1..2 s) fires")
@@ -172,3 +174,6 @@ for a in range(3):
         h["bounds"]=h.get("bounds","")+"; thorough-tier instance with the first source pinned to %d and its path-id to %d"%(a,b)
         H.append(h)
 base["tiers"]["thorough"]={"skip":True}
+add("C08.hold_in_force","VH_c07_hold_restart",SRV,sc+["server/c07.go"],expect_reach=["end"],bounds="the hold time in force after a message from the peer is the negotiated one (3 s), not the configured one (5 s): real fsmHandler.established on the virtual clock (same harness as C07.hold_restart)")
+add("C02.process_message","VH_c06_treat_as_withdraw",TBL,tc+["table/c06.go","table/c02.go","table/c03.go","table/c14.go"],{"segs":1},{"segs":1},expect_reach=["end"],bounds="table.ProcessMessage: every path and withdrawal of an UPDATE with NLRI, withdrawn routes, MP_REACH and MP_UNREACH keeps the ADD-PATH identifier its NLRI carried (same harness as C06.treat_as_withdraw)")
+add("C02.api_delete","VH_c02_api_delete",SRV,sc+["server/c02.go"],{"params":{},"unwind":2200},{"params":{},"unwind":2200},expect_reach=["end"],fixed_clock=True,bounds="BgpServer.AddPath / DeletePath(UUID) with the management loop running next to a peer's route for the same prefix (either order of arrival, symbolic MED)")
